@@ -1087,6 +1087,19 @@ func (x *rawRun) peerSendData(off, n int, fin bool) {
 	x.r.InjectIP(ref.ProtoTCP, ref.BuildTCP(peerPort, x.sPort, x.cfg.PeerISS+1+uint32(off), x.rcvNxt, flags, uint16(x.cfg.PeerWnd), x.segOpts(nil), x.pData[off:off+n], x.r.pAddr, x.r.sAddr))
 }
 
+// peerSendBatch sends several peer data segments that reach the connection in one batch.
+func (x *rawRun) peerSendBatch(segs ...[2]int) {
+	var pl [][]byte
+	for _, sg := range segs {
+		seq := x.cfg.PeerISS + 1 + uint32(sg[0])
+		if end := seq + uint32(sg[1]); x.pSentMax == 0 || ref.SeqLT(x.pSentMax, end) {
+			x.pSentMax = end
+		}
+		pl = append(pl, ref.BuildTCP(peerPort, x.sPort, seq, x.rcvNxt, ref.ACK|ref.PSH, uint16(x.cfg.PeerWnd), x.segOpts(nil), x.pData[sg[0]:sg[0]+sg[1]], x.r.pAddr, x.r.sAddr))
+	}
+	x.r.InjectBatch(x.ep, ref.ProtoTCP, pl...)
+}
+
 func (x *rawRun) menu() []action {
 	var m []action
 	fl := x.r.w.InFlight()
@@ -1215,6 +1228,18 @@ func (x *rawRun) menu() []action {
 				x.ep.SetSockOpt(tcpip.ReceiveBufferSizeOption(x.cfg.RcvBuf / 4))
 			}})
 		}
+		if x.dev('g') && !last && x.fits(x.pSegs[1]) {
+			// two segments arrive before the protocol goroutine runs (one handleSegments batch)
+			nx := x.pSegs[1]
+			m = append(m, action{name: fmt.Sprintf("peer sends [%d,+%d) and [%d,+%d) back to back (one batch)", s[0], s[1], nx[0], nx[1]), cost: 1, do: func() {
+				x.pSegs = x.pSegs[2:]
+				x.peerSendBatch(s, nx)
+			}})
+			m = append(m, action{name: fmt.Sprintf("peer sends [%d,+%d) and then [%d,+%d) back to back (one batch, out of order)", nx[0], nx[1], s[0], s[1]), cost: 1, do: func() {
+				x.pSegs = x.pSegs[2:]
+				x.peerSendBatch(nx, s)
+			}})
+		}
 		if x.dev('o') {
 			if !last && x.fits(x.pSegs[1]) {
 				nx := x.pSegs[1]
@@ -1250,6 +1275,16 @@ func (x *rawRun) menu() []action {
 				m = append(m, action{name: fmt.Sprintf("peer sends [%d,+%d), reaching into the next segment", s[0], s[1]+ext), cost: 1, do: func() {
 					x.pSegs = x.pSegs[1:]
 					x.peerSendData(s[0], s[1]+ext, false)
+				}})
+			}
+			if len(x.pSegs) >= 3 && x.fits(x.pSegs[1]) && x.fits(x.pSegs[2]) {
+				// two segments wait out of order behind a hole
+				a, b, c := x.pSegs[0], x.pSegs[1], x.pSegs[2]
+				m = append(m, action{name: fmt.Sprintf("peer sends [%d,+%d), [%d,+%d), [%d,+%d) in reverse order", a[0], a[1], b[0], b[1], c[0], c[1]), cost: 1, do: func() {
+					x.pSegs = x.pSegs[3:]
+					x.peerSendData(c[0], c[1], false)
+					x.peerSendData(b[0], b[1], false)
+					x.peerSendData(a[0], a[1], false)
 				}})
 			}
 			if s[1] > 4 {
@@ -1326,6 +1361,11 @@ func (x *rawRun) afterStep() {
 		}
 		if x.cfg.RcvBuf > 0 && x.maxUnread > x.cfg.RcvBuf+x.straddleSlack {
 			x.fail("C04", "window-not-closing", "window-not-closing", "the stack has accepted %d bytes the application has not read, more than its receive buffer of %d: the advertised window did not close", x.maxUnread, x.cfg.RcvBuf)
+		}
+	}
+	if x.has('m') {
+		if err := x.r.w.AliasErr(); err != nil {
+			x.fail("C06", "frame-modified-after-send", "frame-modified-after-send", "%v", err)
 		}
 	}
 	if x.r.MonErr != nil && x.has('m') {
@@ -1417,6 +1457,16 @@ func (x *rawRun) atEnd() {
 			x.fail("C04", "acked-not-delivered", "acked-not-delivered", "the stack acknowledged %d bytes of peer data but the application could read only %d", ackedOff, len(x.got))
 		}
 	}
+	// every segment of the peer arrived inside the advertised window and the out-of-order queue
+	// cannot have overflowed (all peer data is smaller than the receive buffer): all of it
+	// must have been accepted, whatever the arrival order (C01; in-window data is accepted, C04)
+	if (x.has('s') || x.has('w')) && len(x.pSegs) == 0 && len(x.pData) > 0 && x.readErr == "" && x.established && !x.shrunk && !x.shut &&
+		(x.cfg.RcvBuf == 0 || len(x.pData) < x.cfg.RcvBuf) {
+		st := tcp.VerifDump(x.ep)
+		if end := x.cfg.PeerISS + 1 + uint32(len(x.pData)); st.IsTCP && st.HasRcv && st.State == 4 && !st.RcvClosed && ref.SeqLT(st.RcvNxt, end) {
+			x.fail("C01", "peer-data-not-accepted", "stream-incomplete-rx", "all %d bytes of the peer arrived inside the advertised window, but the stack has accepted only %d (rcvNxt +%d, %d segment(s) still waiting out of order): it waits for data it already has", len(x.pData), int(st.RcvNxt-x.cfg.PeerISS-1), st.RcvNxt-x.cfg.PeerISS-1, st.PendingOOO)
+		}
+	}
 	if x.has('w') && len(x.pSegs) > 0 && x.readErr == "" && x.established {
 		st := tcp.VerifDump(x.ep)
 		if st.State == 4 {
@@ -1459,7 +1509,10 @@ func rawJobsC01(tier string) []string {
 	// window-limited sender: writes below the MSS that do not fit the room left in the peer's window
 	add(base+",mss=536,pwnd=1000,w=400+400+400+300,pd=,b=1", 2)
 	add(base+",mss=100,pwnd=150,w=60+60+60+60+200,pd=,b=1", 2)
+	// peer segments that arrive two at a time (one handleSegments batch), in and out of order
+	add("or=s,devs=gko,mss=24,w=48,pd=4x20,psack=1,sack=1,b=1", 2)
 	if tier == "thorough" {
+		add("or=s,devs=gkoe,mss=24,w=48,pd=4x20,psack=1,sack=1,ts=1,b=2", 32)
 		add(base+",mss=24,w=72,pd=3x20,v6=1,mtu=1280,b=1", 2)
 		add(base+",mss=24,w=48,pd=2x20,b=2", 16)
 		add(base+",mss=24,w=48,pd=2x20,ts=1,psack=1,sack=1,b=2", 16)
